@@ -68,32 +68,6 @@ Definition warp (c : config) (n : Z) : config :=
   | _ => c
   end.
 
-(* run the schedule; programs are consumed when an idle thread is scheduled; entries for a thread with
-   nothing left to do are skipped.  The trace is accumulated in reverse. *)
-Fixpoint go (c : config) (progs : list (list Z)) (sched : list Z) (acc : list Z) : option (config * list Z) :=
-  match sched with
-  | [] => Some (c, acc)
-  | t :: rest =>
-      if t <? 0 then go (warp c (2 ^ 32 + t)) progs rest (t :: acc) else
-      let i := Z.to_nat t in
-      match nth_error (ths c) i with
-      | None => go c progs rest acc
-      | Some p =>
-          let prog := nth i progs [] in
-          match p, prog with
-          | Idle, [] => go c progs rest acc
-          | _, _ =>
-              let o := match prog with x :: _ => dec_op x | [] => OpPop end in
-              let progs' := match p with Idle => updl progs i (List.tl prog) | _ => progs end in
-              let ev := observe (sh c) p in
-              match step c (i, o) with
-              | None => None
-              | Some c' => go c' progs' rest (rev_append (t :: ev) acc)
-              end
-          end
-      end
-  end.
-
 Definition enc_res (r : res) : list Z :=
   match r with
   | RPush b => [1; zb b]
@@ -101,9 +75,67 @@ Definition enc_res (r : res) : list Z :=
   | RPop None _ => [2; 0; 0]
   | RObs _ z _ => [3; z]
   end.
-Definition results_of (h : list (nat * res)) (i : nat) : list Z :=
-  flat_map (fun e => if Nat.eqb (fst e) i then enc_res (snd e) else []) h.
+Definition res_success (r : res) : bool :=
+  match r with RPush b => b | RPop (Some _) _ => true | _ => false end.
 Definition enc_slot (x : option Z * Z) : list Z := [match fst x with Some v => v | None => 0 end; snd x].
+
+(* PushWait(v, -1) and PopWait(-1) are the loops "try; if it failed, runtime.Gosched(); try again" around Push / Pop:
+   they are run as such on top of the step model (program codes 1000000 + v and -10). *)
+Definition is_wait (x : Z) : bool := (1000000 <=? x) || (x =? -10).
+Definition attempt_of (x : Z) : op := if x =? -10 then OpPop else OpPush (x - 1000000).
+Record rthread := { r_prog : list Z; r_wait : Z; r_yield : bool; r_res : list Z }.
+Definition EvGosched := 10.
+
+(* run the schedule; programs are consumed when an idle thread is scheduled; entries for a thread with
+   nothing left to do are skipped.  The trace is accumulated in reverse. *)
+Fixpoint go (c : config) (rts : list rthread) (sched : list Z) (acc : list Z) : option (config * list rthread * list Z) :=
+  match sched with
+  | [] => Some (c, rts, acc)
+  | t :: rest =>
+      if t <? 0 then go (warp c (2 ^ 32 + t)) rts rest (t :: acc) else
+      let i := Z.to_nat t in
+      match nth_error (ths c) i, nth_error rts i with
+      | Some p, Some rt =>
+          let idle := match p with Idle => true | _ => false end in
+          if idle && r_yield rt then
+            go c (updl rts i {| r_prog := r_prog rt; r_wait := r_wait rt; r_yield := false; r_res := r_res rt |}) rest
+               (rev_append [t; 1; EvGosched; 0; 0; 0; 0] acc)
+          else
+          (* which operation does an idle thread start, and what is left of its program *)
+          let start :=
+            if negb idle then Some (OpPop, rt)
+            else if negb (r_wait rt =? 0) then Some (attempt_of (r_wait rt), rt)
+            else match r_prog rt with
+                 | [] => None
+                 | x :: more =>
+                     if is_wait x then Some (attempt_of x, {| r_prog := more; r_wait := x; r_yield := false; r_res := r_res rt |})
+                     else Some (dec_op x, {| r_prog := more; r_wait := 0; r_yield := false; r_res := r_res rt |})
+                 end in
+          match start with
+          | None => go c rts rest acc
+          | Some (o, rt1) =>
+              let ev := observe (sh c) p in
+              match step c (i, o) with
+              | None => None
+              | Some c' =>
+                  (* did the operation return at this step? *)
+                  let returned := negb idle && match nth_error (ths c') i with Some Idle => true | _ => false end in
+                  let rt2 :=
+                    if returned then
+                      match last (map (fun e => Some (snd e)) (hist c')) None with
+                      | Some r =>
+                          if (r_wait rt1 =? 0) || res_success r
+                          then {| r_prog := r_prog rt1; r_wait := 0; r_yield := false; r_res := rev_append (enc_res r) (r_res rt1) |}
+                          else {| r_prog := r_prog rt1; r_wait := r_wait rt1; r_yield := true; r_res := r_res rt1 |}
+                      | None => rt1
+                      end
+                    else rt1 in
+                  go c' (updl rts i rt2) rest (rev_append (t :: ev) acc)
+              end
+          end
+      | _, _ => go c rts rest acc
+      end
+  end.
 
 (* after the given schedule: round robin until everybody is done (entries of finished threads are skipped) *)
 Definition completion (n : nat) (progs : list (list Z)) : list Z :=
@@ -117,10 +149,11 @@ Definition run_case (args : list Z) : list Z :=
       let (progs, r1) := get_lists n r in
       let (sched, _) := get_list r1 in
       let c0 := seq_state k (bh * 2 ^ 32 + bl) fill n in
-      match go c0 progs (sched ++ completion n progs) [] with
+      let rts := map (fun pr => {| r_prog := pr; r_wait := 0; r_yield := false; r_res := [] |}) progs in
+      match go c0 rts (sched ++ completion n progs) [] with
       | None => [PANIC]
-      | Some (c, acc) =>
-          rev' acc ++ [-1] ++ flat_map (fun i => put_list (results_of (hist c) i)) (seq 0 n)
+      | Some (c, rts', acc) =>
+          rev' acc ++ [-1] ++ flat_map (fun rt => put_list (rev' (r_res rt))) rts'
           ++ [-2; u32 (hd (sh c)); u32 (tl (sh c))] ++ flat_map enc_slot (slots (sh c))
       end
   | _ => [BADCASE]
